@@ -394,6 +394,21 @@ def gen_ops(g, w, n, weights):
         elif k == "setref" and w["refs"]:
             rr = r.choice(w["refs"])
             ops.append(["setref", rr["rid"], g.val()])
+        elif k == "scn_ref" and w["refs"]:
+            # directed scenario (found missing by finding D40): evaluate an element, change a reference (its
+            # dependents lose their values), assign a value to the same element, change another reference,
+            # evaluate again — the assigned value must survive every reference change
+            cands = [x for x in cur.values() if cached_state[x["cid"]]]
+            if not cands:
+                continue
+            c = r.choice(cands)
+            key = g.key(c)
+            ops.append(["eval", c["cid"], key, r.choice(SPELLINGS)])
+            for rr in r.sample(w["refs"], min(len(w["refs"]), r.randint(1, 3))):
+                ops.append(["setref", rr["rid"], g.val()])
+                if r.random() < 0.6:
+                    ops.append(["setv", c["cid"], key, g.val()])
+            ops.append(["eval", c["cid"], key, r.choice(SPELLINGS)])
         elif k == "recalc":
             ops.append(["recalc", r.random() < 0.5])
     return ops
